@@ -12,6 +12,7 @@ import XmppModel.Model.Muc
       L<c> Leave starts   l<c> Leave enters its select   El<c> / Xl<c> error reply / cancel
       D<c>ok | D<c>se | D<c>ce   Leave returned
       I mediated invitation   N unrelated stanza   ?<bits> Joined() of every channel
+      =<a0>.<a1>… Me() of every channel (emitted when it changed)
     answer: `joined=<bits> upres=<n> inv=<n>` or `bad@n:tok`
 -/
 namespace XmppModel.Driver.C18
@@ -111,6 +112,10 @@ def applyTok (n : Nat) (s : St) (tok : String) : Option St :=
   | ['N'] => step s .unrelated
   | 'Z' :: _ => step s .unrelated   -- a late error reply to a join / leave that has already returned
   | '?' :: r => chk (String.ofList r == bits n s) s
+  | '=' :: r => do
+    -- Me() of every channel: the occupant address it holds
+    let l ← mapM? String.toNat? ((String.ofList r).splitOn ".")
+    chk (l == (List.range n).map s.cur) s
   | _ => none
 
 def replay (n : Nat) : List String → Nat → St → Except String St
